@@ -1122,15 +1122,22 @@ def known_key(ck, msgs: list[str], p=None):
 
 
 def replay_known(ck) -> None:
+    """Known findings must still fail on the implementation; fixed findings must pass (and say so)."""
     for k in ck._known:
-        if k.get("status") != "known":
-            continue
         p = proto_from_b64(k["witness"]["proto_b64"])
         msgs = oracle_fails(p)
-        if msgs:
-            ck.known_finding(k["key"], k["what"])
-        else:
-            ck.broken(f"known-finding-stale:{k['key']}", "the recorded witness no longer fails on the implementation")
+        if k.get("status") == "known":
+            if msgs:
+                ck.known_finding(k["key"], k["what"])
+            else:
+                ck.broken(f"known-finding-stale:{k['key']}", "the recorded witness no longer fails on the implementation")
+        elif k.get("status") == "fixed":
+            if msgs:
+                ck.broken(f"fixed-finding-regressed:{k['key']}", json.dumps({"failures": msgs[:3], "proto_b64": k["witness"]["proto_b64"]}))
+            else:
+                line = f"fixed: property=C17 {k.get('commit', '?')} {k['what']}"
+                print(line, flush=True)
+                ck.notes.append(line)
 
 
 def search(ck, diverging: list) -> None:
